@@ -6,7 +6,7 @@ CONSTANTS
   MaxGReq = 2
   MaxIn = 1
   MaxReg = 2
-  Configs <- AllCfgs
+  Configs <- CfgCore
   Alpha = "full"
   Races = TRUE
   CloseLate = TRUE
